@@ -223,6 +223,24 @@ def collect(ctx, pid):
                 out.append({'decl': name, 'label': label, 'ok': ok, 'shape': shape_key(d, kind, f)})
             elif f is None and sl and sl(d, label):
                 out.append({'decl': name, 'label': label, 'ok': ok, 'shape': json.dumps([label, d['base']])})
+    # a rule-valid declaration that no longer compiles: the property cannot be shown for its accessors
+    casc = set(ctx.verdicts['cascade'])
+    for name, msgs in ctx.verdicts['rejected'].items():
+        d = ctx.by_name.get(name)
+        if d is None or d.get('unstructured') or name in casc or name not in ctx.dec or not ctx.dec[name][0]:
+            continue
+        if d['kind'] != 'bitfield':
+            continue
+        hit = False
+        for f in d['fields']:
+            kinds = (['get'] if 'r' in f['acc'] else []) + (['with', 'set'] if 'w' in f['acc'] else [])
+            if sel and any(sel(d, k, f) for k in kinds):
+                hit = True
+        if sl and any(sl(d, l) for l in ('storage', 'raw_value', 'new_with_raw_value', 'surface:sigs', 'surface:struct')):
+            hit = True
+        if hit:
+            out.append({'decl': name, 'label': 'compiles', 'ok': False, 'shape': json.dumps(['compiles', d['base']]),
+                        'rustc': msgs[:2]})
     return out
 
 
@@ -374,6 +392,13 @@ def check_property_(pid, tier, seed):
                        'note': 'the declaration is the witness: ' + ('it is rule-invalid but compiles' if o['real'] and not o['valid']
                                else 'it is rule-valid but is rejected' if o['valid'] and not o['real'] else 'model and rule disagree')}
             violations.append((write_replay(pid, payload), '' if o['real'] != o['valid'] else ' no-failing-input-found'))
+            continue
+        if o['label'] == 'compiles':
+            payload = {'property': pid, 'kind': 'verdict', 'declaration': '\n'.join(D.rust_decl(d)), 'decl_json': d,
+                       'deps': [ctx.by_name[n] for n in sorted(P.deps_of(d))], 'rustc': o.get('rustc'),
+                       'note': 'the declaration follows the documented layout rules but no longer compiles: the property cannot be '
+                               'established for its accessors (the declaration is the witness)'}
+            violations.append((write_replay(pid, payload), ''))
             continue
         payload = {'property': pid, 'kind': 'obligation', 'obligation': '%s %s' % (o['decl'], o['label']),
                    'declaration': '\n'.join(D.rust_decl(d)), 'decl_json': d,
